@@ -22,7 +22,7 @@ Section Refl.
     | EIf c t f => selfok c && selfok t && selfok f
     | EWhile c b => selfok c && selfok b
     | EFor _ e1 cls _ body =>
-        selfok e1 && (match ddecl e1 with [] => true | _ => false end) &&
+        selfok e1 &&
         forallb (fun c : clause => match c with (_, e2) => selfok e2 end) cls && selfok body
     | ESwitch e1 arms => selfok e1 && forallb (fun a : pat * expr => match a with (_, b) => selfok b end) arms
     | ETry b _ h => selfok b && selfok h
@@ -64,7 +64,6 @@ Section Refl.
     - constructor; auto.
     - constructor; auto.
     - (* for *) constructor; auto.
-      + destruct (ddecl e1); [reflexivity|discriminate].
       + clear - H H2. generalize (x :: bnd B e1). generalize (DU D (for_budget x cls e2)).
         induction H as [|[[k z] e] r He Hr IH]; intros D0 B0; [constructor|].
         cbn in H2. apply andb_true_iff in H2. destruct H2. constructor; auto; apply He; auto.
